@@ -273,6 +273,84 @@ func c14Run(e *core.Env) {
 			}
 		}
 	}
+	// (iv) termination under every schedule within the deviation bound, for the commands
+	// whose pipeline stages share the registries (valuation + --remap, transcode) and for
+	// the loader with an error in an included file
+	for _, sc := range allScenarios(false) {
+		if !(strings.Contains(sc.Name, "--remap") || strings.Contains(sc.Name, "transcode") || sc.Name == "load-flat-model-in-a" || sc.Name == "load-deep-diamond-check") {
+			continue
+		}
+		if !e.Take() {
+			continue
+		}
+		drv.Files(sc.Files)
+		var key, detail string
+		var picks []int
+		x := core.Explorer{Bounds: core.Pick(e, core.Bounds{Preempt: 1, Free: 2, Total: 2}, core.Bounds{Preempt: 2, Free: 2, Total: 3}), NoMap: true, Cache: true, MaxExec: core.Pick(e, 40000, 400000), Stop: e.Expired}
+		st := x.Explore(func(c *core.Ctx) {
+			o := drv.Run(c, sc.Args...)
+			if o.Pruned || key != "" {
+				return
+			}
+			switch {
+			case o.Panic != "":
+				key, detail, picks = "C14:panic:"+panicSite(o.Panic)+":schedule", clip(o.Panic, 1500), c.Picks()
+			case o.Deadlock:
+				key, detail, picks = "C14:deadlock:"+sc.Args[0]+":schedule", o.Abnormal(), c.Picks()
+			case o.Horizon:
+				key, detail, picks = "C14:non-termination:schedule", o.Abnormal(), c.Picks()
+			case o.Exit != 0 && strings.TrimSpace(o.Stderr) == "":
+				key, detail, picks = "C14:failure-without-diagnostic:"+sc.Args[0]+":schedule", "", c.Picks()
+			}
+		}, func(c *core.Ctx) bool { return key == "" })
+		e.AddStats(st)
+		e.Add("evaluations", st.Executions)
+		e.Add("schedules_explored", st.Executions-st.Pruned)
+		e.SetBound("schedule_deviations_"+sc.Name, st.BoundCompleted)
+		if key != "" {
+			e.Violation(key, detail+"\nscenario "+sc.Name+": knut "+strings.Join(sc.Args, " "), c19Case{Scenario: sc.Name, Picks: picks, Tier: e.Tier}, func() bool {
+				drv.Files(sc.Files)
+				o := drv.Run(core.NewReplayCtxNoMap(picks, false), sc.Args...)
+				return o.Abnormal() != ""
+			})
+		}
+	}
+	// (v) free-running stress on the real binary (all CPUs): a valid journal in which new
+	// asset accounts holding a priced commodity appear every day (so that the valuation
+	// stage keeps creating accounts while later stages read the registries); every command
+	// must end within 60 s (normal: well under a second) with exit 0 and a report
+	if e.Take() {
+		drv.Files(map[string]string{"stress.knut": c14StressJournal()})
+		reps := core.Pick(e, 3, 12)
+		for _, cmd := range [][]string{
+			{"balance", "--color=false", "-v", "CHF", "--remap", "Income|Expenses", "stress.knut"},
+			{"balance", "--color=false", "-v", "CHF", "--remap", "Assets", "-m", "2,Assets", "--months", "stress.knut"},
+			{"transcode", "-v", "CHF", "stress.knut"}, {"print", "stress.knut"}, {"check", "stress.knut"},
+			{"portfolio", "weights", "-v", "CHF", "--color=false", "--months", "stress.knut"}, {"portfolio", "returns", "-v", "CHF", "--months", "stress.knut"},
+		} {
+			for i := 0; i < reps; i++ {
+				o := drv.RunBinaryFree(60*time.Second, cmd...)
+				e.Count("evaluations")
+				e.Count("free_running_stress_runs")
+				what := ""
+				switch {
+				case o.Horizon:
+					what = "C14:hang:stress:" + cmd[0]
+				case o.Panic != "":
+					what = "C14:panic:stress:" + cmd[0]
+				case o.Exit != 0:
+					what = "C14:spurious-failure:stress:" + cmd[0]
+				case o.Stdout == "" && cmd[0] != "check":
+					what = "C14:no-output:stress:" + cmd[0]
+				}
+				if what != "" {
+					e.Violation(what, fmt.Sprintf("run %d of `knut %s` on a valid 200-day journal (free-running, all CPUs): exit %d, killed after 60 s: %v\n%s", i+1, strings.Join(cmd, " "), o.Exit, o.Horizon, clip(o.Stderr, 1500)),
+						c14Case{Args: cmd, Class: "stress"}, nil)
+					break
+				}
+			}
+		}
+	}
 	// (ii-b) wide include trees: a root that includes w files each of which includes one
 	// more file (2w+1 files), valid or with an error planted in the last leaf
 	for _, w := range []int{10, 40, 70} {
@@ -371,6 +449,26 @@ func clipFiles(fs map[string]string) map[string]string {
 	return res
 }
 
+func c14StressJournal() string {
+	var b strings.Builder
+	b.WriteString("2000-01-01 open Equity:Opening\n2000-01-01 open Assets:Cash\n")
+	for k := 0; k < 40; k++ {
+		fmt.Fprintf(&b, "2000-01-01 open Expenses:E%d\n", k)
+	}
+	b.WriteString("2000-01-01 price STK 100 CHF\n\n")
+	for d := 1; d <= 200; d++ {
+		date := fmt.Sprintf("%04d-%02d-%02d", 2000+d/336, (d%336)/28+1, d%28+1)
+		fmt.Fprintf(&b, "%s price STK %d CHF\n\n", date, 100+d)
+		for k := 0; k < 4; k++ {
+			fmt.Fprintf(&b, "%s open Assets:Portfolio:D%dK%d\n\n%s \"buy\"\nEquity:Opening Assets:Portfolio:D%dK%d 1 STK\n\n", date, d, k, date, d, k)
+		}
+		for f := 0; f < 30; f++ {
+			fmt.Fprintf(&b, "%s \"groceries %d\"\nAssets:Cash Expenses:E%d 1 CHF\n\n", date, f, f%40)
+		}
+	}
+	return b.String()
+}
+
 func c14Replay(e *core.Env, data json.RawMessage) (bool, string) {
 	var cs c14Case
 	if err := json.Unmarshal(data, &cs); err != nil {
@@ -378,6 +476,15 @@ func c14Replay(e *core.Env, data json.RawMessage) (bool, string) {
 	}
 	drv := e.Driver()
 	drv.Horizon = 4000
+	if cs.Class == "stress" {
+		drv.Files(map[string]string{"stress.knut": c14StressJournal()})
+		for i := 0; i < 12; i++ {
+			if o := drv.RunBinaryFree(60*time.Second, cs.Args...); o.Horizon || o.Panic != "" || o.Exit != 0 {
+				return true, fmt.Sprintf("run %d: exit %d killed=%v\n%s", i+1, o.Exit, o.Horizon, clip(o.Stderr, 1500))
+			}
+		}
+		return false, "12 free-running runs ended normally"
+	}
 	key, detail, _ := c14One(drv, cs)
 	return key != "", key + "\n" + detail
 }
